@@ -123,6 +123,16 @@ def run(cfg, seed, kill, script=None, rmc=False):
                 out.send_errors.append((side, 0, repr(e), sim.now()))
                 op_end(i, "error:" + type(e).__name__)
 
+        async def do_sendu(side, client):
+            i = op_start("sendu@" + side)
+            try:
+                await client.send_unreliable(b"late unreliable")
+                op_end(i, "ok")
+            except anyio.ClosedResourceError:
+                op_end(i, "closed")
+            except Exception as e:
+                op_end(i, "error:" + type(e).__name__)
+
         # ---- RMC layer on top (pending remote calls)
         class Answering:
             PROTOCOL_ID = 0x65
@@ -200,6 +210,7 @@ def run(cfg, seed, kill, script=None, rmc=False):
                 await reader("s", client)          # a typical server: serve until the peer is gone
             # after the connection ended: later sends must raise the closed-connection error
             await do_send("s", client, b"late")
+            await do_sendu("s", client)
             log.append(("app", sim.now(), "s", "done", 0, b""))
             op_end(hi, "returned")
 
@@ -234,6 +245,7 @@ def run(cfg, seed, kill, script=None, rmc=False):
                                 op_end(di, "returned")
                                 # readers end with EOF once the connection is closed
                             await do_send("c", client, b"late")
+                            await do_sendu("c", client)
                             xi = op_start("async-with-exit")
                         op_end(xi, "returned")
                         log.append(("app", sim.now(), "c", "closed", 0, b""))
